@@ -23,6 +23,30 @@ def exec_cell(module, src):
     exec(compile(src, fn, "exec"), module.__dict__)
 
 
+def modules_from_cells(pkg, modules, cells):
+    """
+    Build the package in memory, notebook style: every definition is its own compilation unit.
+    (CPython compiles `mod.attr(...)` differently depending on whether `import mod` is part of the
+    same compilation unit, so a function defined in a cell and the same text in a module file have
+    different bytecode; both sides of a comparison must be built the same way.)
+    """
+    import types
+    p = types.ModuleType(pkg)
+    p.__path__ = []
+    p.__package__ = pkg
+    sys.modules[pkg] = p
+    mods = {}
+    for mname in modules:
+        mod = types.ModuleType("%s.%s" % (pkg, mname))
+        mod.__package__ = pkg
+        sys.modules["%s.%s" % (pkg, mname)] = mod
+        setattr(p, mname, mod)
+        mods[mname] = mod
+    for mname, src in cells:
+        exec_cell(mods[mname], src)
+    return mods
+
+
 def setup_memento(store_dir):
     import twosigma.memento as m
     from twosigma.memento.storage_filesystem import FilesystemStorageBackend
@@ -149,3 +173,49 @@ def run_deps(spec):
         fn = getattr(mods[mname], name)
         results["%s.%s" % (mname, name)] = [call_outcome(fn, a) for a in spec["args"]]
     return {"deps": deps, "results": results}
+
+
+def run_events(spec):
+    """
+    In-process event history with version queries (C13).
+    spec = {"pkgroot","pkg","modules","store","steps":[{"lock":None|bool,"cells":[[mod,src]],"queries":[[mod,name,kind]]}]}
+    -> [ {"mod.name|kind": version | "!Error: ..."} per step ]
+    """
+    import twosigma.memento as m
+    from twosigma.memento.types import MementoFunctionType
+    setup_memento(spec["store"])
+    if spec.get("init_cells") is not None:
+        mods = modules_from_cells(spec["pkg"], spec["modules"], spec["init_cells"])
+    else:
+        mods = import_program(spec["pkgroot"], spec["pkg"], spec["modules"])
+    out = []
+    for step in spec["steps"]:
+        if step.get("lock") is not None:
+            for cn in (None, "c"):
+                m.Environment.get().get_cluster(cn).locked = bool(step["lock"])
+        for mname, src in step.get("cells", []):
+            exec_cell(mods[mname], src)
+        res = {}
+        for mname, name, kind in step.get("queries", []):
+            fn = getattr(mods[mname], name, None)
+            key = "%s.%s|%s" % (mname, name, kind)
+            if not isinstance(fn, MementoFunctionType):
+                res[key] = None
+                continue
+            try:
+                if kind == "plain":
+                    res[key] = fn.version()
+                elif kind == "ref":
+                    res[key] = fn.fn_reference().qualified_name.split("#", 1)[1]
+                elif kind == "partial":
+                    res[key] = fn.partial(1).version()
+                elif kind == "force_local":
+                    res[key] = fn.force_local().version()
+                elif kind == "ctx":
+                    res[key] = fn.with_context_args({"k": 1}).version()
+                elif kind == "unregistered":
+                    res[key] = m.MementoFunction(fn.fn, cluster_name=fn.cluster_name, register_fn=False).version()
+            except BaseException as e:  # noqa
+                res[key] = "!%s: %s" % (type(e).__name__, str(e)[:200])
+        out.append(res)
+    return out
